@@ -12,7 +12,7 @@ from sa.report import Ctx
 
 from .common import generic_sweeps
 
-from .cp_common import check_alldiff_coverage, default_raises, dispatcher_tags, flattener_tags, produced_tags, shape_dispatch_falls_through, structural_len_subjects
+from .cp_common import check_alldiff_coverage, check_id_allocation, default_raises, dispatcher_tags, flattener_tags, produced_tags, shape_dispatch_falls_through, structural_len_subjects
 
 EXPLANATION = (
     "Decides structural necessary conditions of 'no returned assignment breaks an added constraint / INFEASIBLE only "
@@ -24,7 +24,7 @@ EXPLANATION = (
     "a total decision of every constraint (explicit leaf certifier, or O2 and O3 hold for the propagator); (O5) values "
     "derived from `hints` reach domains/assumptions only if every INFEASIBLE publication is guarded by 'no hints in "
     "force' (hint-free retry); (O6) the two copies of the SAT-required tag set agree; (O7) domains are only ever "
-    "narrowed and decode reads each named variable's own literals. NOT decided: semantic correctness of each "
+    "narrowed and decode reads each named variable's own literals. (O10) each boolean-id counter is written only by its initialisation and its allocator, auxiliary variables draw their literals from the encoder's allocator, and the encoder stores nothing in the model. NOT decided: semantic correctness of each "
     "propagator/encoding, back-end agreement."
 )
 
@@ -126,6 +126,7 @@ def run(ctx: Ctx):
     check_narrowing(ctx)
     check_exact_division(ctx)
     check_alldiff_coverage(ctx, "C05-O9")
+    check_id_allocation(ctx, "C05-O10")
     generic_sweeps(ctx, skip_stutter_modules=("solvor/sat.py",))
 
 
@@ -305,6 +306,17 @@ def _v_domain_widened(tree):
     M.replace_stmt(g, lambda s: M.src_is(s, "domains[var1.name] = common"), M.stmts("domains[var1.name] = domains[var1.name] | domains[var2.name]"))
 
 
+def _v_resync_counter(tree):
+    g = M.find_func(tree, "SATEncoder._create_int_var")
+    M.replace_stmt(g, lambda s: isinstance(s, ast.For) and M.src_has(s, "self._new_bool_var()"), M.stmts("self._next_bool = self.model._next_bool"))
+    M.replace_stmt(g, lambda s: M.src_is(s, "var.bool_vars = {}"), [])
+
+
+def _v_aux_registered(tree):
+    g = M.find_func(tree, "SATEncoder._create_int_var")
+    M.replace_stmt(g, lambda s: isinstance(s, ast.Return), lambda s: M.stmts("self.model._vars[name] = var") + [s])
+
+
 def _t_reformat(tree):
     pass
 
@@ -337,6 +349,8 @@ VARIANTS = [
     M.Variant("SAT hints are hard again (original defect)", ENC, _v_hints_hard_sat, "C05-O5"),
     M.Variant("solver routing sets disagree", CP, _v_sat_sets_differ, "C05-O6"),
     M.Variant("eq_var propagator widens a domain", CP, _v_domain_widened, "C05-O7"),
+    M.Variant("auxiliary variables keep the model's literals and the encoder counter is re-synchronised (seed C05-D)", ENC, _v_resync_counter, "C05-O10"),
+    M.Variant("auxiliary variables are registered in the model and re-encoded by the next solve (original defect)", ENC, _v_aux_registered, "C05-O10"),
     M.Variant("twin: reformat cp", CP, _t_reformat, None),
     M.Variant("twin: reformat encoder", ENC, _t_reformat, None),
     M.Variant("twin: rename free-variable list", CP, _t_rename, None),
